@@ -31,7 +31,7 @@ CHECKS["C05"] = dict(
 CHECKS["C08"] = dict(
     category="proof",
     text="GoalRegion.is_reached (with _harmonize_state_types, _check_value_in_interval, Interval/AngleInterval.contains inlined from source) is executed symbolically for every kinematic and point-mass state class x every subset of position/orientation/velocity constraints x goal shape kind, int and float values, one and two goal states; 'reached <=> all constrained attributes satisfied (time in interval, point in shape, heading in angle interval mod 2pi, speed in interval; PM: hypot / atan2)', 'never raises' and 'state and goal unmodified' are discharged by z3; PlanningProblem.goal_reached likewise on a 2-state trajectory.",
-    note="point-in-polygon is the shape's own contains_point (shapely predicate uninterpreted; its geometric truth is C06); atan2/hypot by axioms; floats are reals; trajectory length fixed small",
+    note="goal_reached also with two goal states whose symbolic time windows are independent (the first may start later); point-in-polygon is the shape's own contains_point (shapely predicate uninterpreted; its geometric truth is C06); atan2/hypot by axioms; floats are reals; trajectory length fixed small",
     technique="deductive: AST symbolic execution of real source + sidecar contracts, VCs discharged by z3",
     design_ref="5/C08",
 )
@@ -46,7 +46,7 @@ CHECKS["C04"] = dict(
 CHECKS["C11"] = dict(
     category="proof",
     text="Histories query -> public mutator -> query are executed symbolically on the real source for every cache/mutator pair the property lists that the model reaches: TrajectoryPrediction.occupancy_set vs translate_rotate / trajectory / shape setters (also through DynamicObstacle), DynamicObstacle occupancy/state vs prediction setter / update_prediction / update_initial_state / translate_rotate, update_initial_state history bookkeeping (history lengths 0-3 x max 1,2,5), TrafficLightCycle / TrafficLight state vs cycle_elements / time_offset / cycle replacement, Lanelet polygon and distance vs translate_rotate. Postcondition: the second answer equals the answer of an object freshly built from the current primary data; discharged by z3 for all values.",
-    note="one mutator per history (the inductive argument: each mutator re-establishes cache coherence, which is what each contract proves from a populated cache); LaneletNetwork spatial index (STRtree) coherence is covered under C06, not here; in-place mutation of exposed lists is outside any method contract; floats are reals",
+    note="traffic-light cycles are also edited through the TrafficLight that owns them and queried through the light at the same time step; one mutator per history (the inductive argument: each mutator re-establishes cache coherence, which is what each contract proves from a populated cache); LaneletNetwork spatial index (STRtree) coherence is covered under C06, not here; in-place mutation of exposed lists is outside any method contract; floats are reals",
     technique="deductive: AST symbolic execution of real source over operation histories + sidecar contracts, VCs discharged by z3",
     design_ref="5/C11",
 )
@@ -118,7 +118,7 @@ CHECKS["C15"] = dict(
 CHECKS["C18"] = dict(
     category="proof",
     text="Read-only operations are executed symbolically from the real source on scenarios / planning problems with symbolic content and the observable view (all constructor-visible attributes of every reachable object; declared caches and derived geometry excluded) is compared before and after: occupancy_at_time for every obstacle role (incl. trajectories of states without an orientation attribute), occupancies_at_time_step, obstacle_states_at_time_step, find_lanelet_by_position, traffic-light state, lanelet distance / polygon, GoalRegion.is_reached (point-mass state), __eq__ / __hash__ of scenario and planning-problem set, deepcopy, LaneletNetwork.__getstate__, and writing to XML. Postcondition view' == view (tolerance 0), discharged by z3.",
-    note="drawing / rendering (matplotlib) is not under contract, and numpy views are modelled as copies, so a write through a view that aliases model data (e.g. ascontiguousarray of a slice) is outside the encoding; protobuf export IS under contract (pbmodel); the scenario id carries an unsorted prediction-id list and the network a lanelet built with default arguments so that in-place normalisations show; pickling is covered through __getstate__/__setstate__ only; 'exporting before and after gives the same file' follows from view equality plus C15",
+    note="route queries (predecessors / successors in range) through lanelets whose reference lists are not ascending; export (protobuf, then XML) of planning problems whose goal is given by lanelets with a sparse goal-lanelet map; drawing / rendering (matplotlib) is not under contract, and numpy views are modelled as copies, so a write through a view that aliases model data (e.g. ascontiguousarray of a slice) is outside the encoding; protobuf export IS under contract (pbmodel); the scenario id carries an unsorted prediction-id list and the network a lanelet built with default arguments so that in-place normalisations show; pickling is covered through __getstate__/__setstate__ only; 'exporting before and after gives the same file' follows from view equality plus C15",
     technique="deductive: frame condition (modifies nothing observable) by AST symbolic execution of real source with structural snapshots, discharged by z3",
     design_ref="5/C18",
 )
@@ -126,7 +126,7 @@ CHECKS["C18"] = dict(
 CHECKS["C03"] = dict(
     category="proof",
     text="The document the real XML writer produces (abstract tree, symbolic values; lanelet network with sign / light / intersection / stop line, every obstacle role, planning problems with region / interval goals, location and tags) is validated against content models parsed on every run from the shipped XSD: element order and occurrence (sequence / choice / all with min/maxOccurs), required and undeclared attributes, enumeration values, the lexical class of every number against the XSD type (a text produced by str(float) is in exponent notation exactly for |x| < 1e-4 or |x| >= 1e16, which xs:decimal does not admit - a z3 condition), numeric ranges (positiveInteger, ...) and the id key / idref keyref constraints as z3 conditions over symbolic ids. Additionally EXHAUSTIVE over the enumeration members the schema lists: one valid document per group carrying every schema-listed LaneletType, vehicle type, line marking (bounds and stop lines), obstacle type per role, traffic light colour, environment value and, per country, traffic sign id (20 documents; the same documents validate with lxml's XMLSchema in the native cross-check). Acceptance by the library's own reader is the C01 round trip.",
-    note="own XSD validator for the subset of XSD the shipped schema uses (no substitution groups, wildcards, xs:union); float_to_str by contract (plain decimal); one document shape per content group, values symbolic; native replays validate the real file with lxml.XMLSchema",
+    note="also a lanelet with 3-D boundaries some of whose vertices lie at height exactly 0 (every point must carry x, y, z); own XSD validator for the subset of XSD the shipped schema uses (no substitution groups, wildcards, xs:union); float_to_str by contract (plain decimal); one document shape per content group, values symbolic; native replays validate the real file with lxml.XMLSchema",
     technique="deductive: AST symbolic execution of the real writer + validation of the abstract tree against XSD content models, lexical-class and range conditions discharged by z3",
     design_ref="5/C03",
 )
@@ -134,7 +134,7 @@ CHECKS["C03"] = dict(
 CHECKS["C14"] = dict(
     category="proof",
     text="CommonRoadSolutionWriter (root, trajectory, state and sub-element builders) and CommonRoadSolutionReader (header, benchmark id, vehicle id, trajectory, state parsing) are executed symbolically back to back on abstract XML documents for every (vehicle model, trajectory kind) pair incl. input vectors and KST, int- and float-typed state values, optional metadata present and absent, single and cooperative solutions: same benchmark id, planning-problem ids, vehicle model / type, cost function, trajectory type, ascending time steps, BIT-IDENTICAL state values (tolerance 0), computation time, processor name, date to the second; the written document is validated against content models parsed from the shipped solution XSD (trajectory types the schema defines, in schema order); the state-field tables are checked exhaustively for index alignment and distinct names.",
-    note="str(np.float64(x)) / str(int) denote exactly the number and float()/int() parse them back exactly (assumed, Python's shortest round-trip repr); strftime/strptime natively on a concrete date; XML serialise/parse transparent; 2 states per trajectory; every (vehicle model, vehicle type, supported cost function) triple is covered exhaustively by cooperative solutions with one planning-problem solution per pair (non-ascending planning-problem ids)",
+    note="one trajectory with numpy-integer time steps; str(np.float64(x)) / str(int) denote exactly the number and float()/int() parse them back exactly (assumed, Python's shortest round-trip repr); strftime/strptime natively on a concrete date; XML serialise/parse transparent; 2 states per trajectory; every (vehicle model, vehicle type, supported cost function) triple is covered exhaustively by cooperative solutions with one planning-problem solution per pair (non-ascending planning-problem ids)",
     technique="deductive: AST symbolic execution of real solution writer and reader on abstract XML documents + XSD content-model validation, exact round-trip postcondition discharged by z3; finite tables by exhaustion",
     design_ref="5/C14",
 )
@@ -142,7 +142,7 @@ CHECKS["C14"] = dict(
 CHECKS["C13"] = dict(
     category="proof",
     text="ScenarioID.__init__/__str__/from_benchmark_id/__eq__ and Solution.benchmark_id / CommonRoadSolutionReader._parse_benchmark_id / _parse_vehicle_id are interpreted from the real source on ids whose map / configuration / prediction numbers are symbolic integers >= 1 and whose country (any key of the shipped ISO table, or ZAM) and map name (any string of [a-zA-Z0-9]+) are opaque atoms; the printed id is a token string. Conformance to the CommonRoad id grammar (stated in the contract, not taken from the code) and the capture groups the REAL compiled pattern yields for EVERY string of that form are decided by automata (language inclusion + group unambiguity on the product automaton; no length bound). Exhaustive over cooperative flag, behaviour S/T/P/I, map / configuration / prediction structure incl. constructor defaults, 1-3 prediction ids as int or list, all supported versions, all (vehicle model, type) pairs, all cost functions, 1-3 planning-problem solutions.",
-    note="str(int) is the canonical decimal text and int() inverts it (assumed); string concatenation / join / split / replace / re.sub on token strings modelled at character level and refused where an atom could contain the character; vehicle and cost ids enter the framing contract as atoms over the finite id sets proved by the per-pair contracts (modular); at most 3 prediction ids and 3 planning-problem solutions in the quick tier, 8 and 6 in the thorough tier (structure bound)",
+    note="the framing contract also runs with concrete vehicle / cost ids that are EQUAL for several planning problems (same cost function for all vehicles); str(int) is the canonical decimal text and int() inverts it (assumed); string concatenation / join / split / replace / re.sub on token strings modelled at character level and refused where an atom could contain the character; vehicle and cost ids enter the framing contract as atoms over the finite id sets proved by the per-pair contracts (modular); at most 3 prediction ids and 3 planning-problem solutions in the quick tier, 8 and 6 in the thorough tier (structure bound)",
     technique="deductive: AST symbolic execution of the real print/parse code on token strings + regular-language decision (NFA product, inclusion and group unambiguity) against the real compiled pattern; finite enumerations by exhaustion; z3 for the integer equalities",
     design_ref="5/C13",
 )
@@ -158,7 +158,7 @@ CHECKS["C02"] = dict(
 CHECKS["C19"] = dict(
     category="proof",
     text="PARTIAL: the property's claims about WHAT is drawn and about parameter propagation are decided; its totality claim (drawing and rendering never raise) is not. (1) Parameter propagation: BaseParam.__setattr__ / __post_init__ / __setitem__ are interpreted from the real source on the real dataclass tree (MPDrawParams and every nested group): a symbolic value set on a group - by attribute, by item, or through the constructor - reaches every nested group that declares the parameter and no other parameter of any nested group changes; every parameter of five root groups that a nested group shares. (2) What is drawn: MPRenderer.draw_static_obstacle / draw_dynamic_obstacle / draw_phantom_obstacle / draw_environment_obstacle / _draw_occupancy / draw_polygon / draw_rectangle / draw_ellipse and the shapes' draw methods are interpreted with shape drawing on and icons, signals, trajectories, extra occupancies, labels, initial states and history off; matplotlib patch constructors are recorders. Postcondition: the patches collected in renderer.obstacle_patches are, in number, kind and geometry, exactly the shapes of the occupancies occupancy_at_time reports at time_begin (for set-based predictions also at the steps time_begin < t < time_end), nothing otherwise. (3) Which lanelets are drawn: MPRenderer.draw_lanelet_network interpreted on a three-lanelet network with symbolic vertices for draw_ids = None, [], one id, two ids out of order, all ids, an id that does not exist (markings, labels, signs, lights, intersections off): exactly one fill collection whose polygons are, in network order, right bound + reversed left bound of exactly the selected lanelets (all for None, none for []), and one right-bound and one left-bound path per selected lanelet. Symbolic geometry; time_begin <= time_end symbolic for static / environment / dynamic obstacles without and with trajectory, seven windows (before, at the initial step, inside, last step, after, all, begin = end) for set-based, phantom and trajectory obstacles.",
-    note="NOT decided by this check: that drawing plus matplotlib's render() completes without exception for every parameter setting (matplotlib internals are outside any contract here), icons / signals / traffic signs / lights / labels / line markings / intersection colouring of draw_lanelet_network. The renderer treats time_end as exclusive in its ranges (consistently, also in draw_trajectory); the contract follows that reading. Obstacle horizons are fixed small structures (initial step 1, predictions 2..4).",
+    note="eight windows incl. one that begins two steps before the obstacle exists; NOT decided by this check: that drawing plus matplotlib's render() completes without exception for every parameter setting (matplotlib internals are outside any contract here), icons / signals / traffic signs / lights / labels / line markings / intersection colouring of draw_lanelet_network. The renderer treats time_end as exclusive in its ranges (consistently, also in draw_trajectory); the contract follows that reading. Obstacle horizons are fixed small structures (initial step 1, predictions 2..4).",
     technique="deductive: AST symbolic execution of the real draw-parameter classes and renderer draw functions with matplotlib constructors as recorders; postconditions discharged by z3; parameter tree enumerated from the real dataclasses",
     design_ref="5/C19",
 )
